@@ -82,6 +82,25 @@ impl SyncTrackerRes {
             .push_back(ComponentChange { change_id, data });
     }
 
+    /// A parent link applied from the network: the `Changed<Parent>` it raises must not be announced again.
+    pub(crate) fn parent_pushed_from_network(&mut self, id: Uuid) {
+        self.pushed_component_from_network
+            .insert(Self::parent_change_id(id));
+    }
+
+    /// Consumes the debounce token of a parent link applied from the network, if there is one.
+    pub(crate) fn skip_network_parent_change(&mut self, id: Uuid) -> bool {
+        self.pushed_component_from_network
+            .remove(&Self::parent_change_id(id))
+    }
+
+    fn parent_change_id(id: Uuid) -> ComponentChangeId {
+        ComponentChangeId {
+            id,
+            name: Parent::type_path().to_string(),
+        }
+    }
+
     pub(crate) fn skip_network_handle_change(&mut self, id: AssId) -> bool {
         if self.pushed_handles_from_network.contains(&id) {
             debug!(
